@@ -993,7 +993,7 @@ class Envelope:
         from photon_weave.state.fock import Fock
         from photon_weave.state.polarization import Polarization, PolarizationLabel
 
-        if self.composite_envelope is not None:
+        if self.composite_envelope is not None and self.state is None:
             assert isinstance(self.composite_envelope, CompositeEnvelope)
             return self.composite_envelope.trace_out(*states)
 
